@@ -18,9 +18,9 @@ RULE = (
 )
 ASSUMPTIONS = ["bytes + inode + mtime_ns equality is taken as 'file not modified'"]
 TIMEOUT = {"quick": 900, "thorough": 1800}
-MIN_NONTRIVIAL = {"quick": 25, "thorough": 400}
+MIN_NONTRIVIAL = {"quick": 25, "thorough": 200}
 REQUIRED_COUNTERS = ["entry_points_checked", "loop_limit_hits"]
-N = 1200
+N = 500
 LOOP_SQL = [
     "SELECT a,b from t\n", "select  a ,b,c  from   t   where x=1\n", "SELECT\na,\nb\nfrom t\n", "select a from t join u on t.x=u.x  where  y = 1   \n\n\n",
     "SELECT a as b,c  FROM t group by  1\n", "select case when a then b end,c from t\n", "select  *  from  ( select a,b from t )  x\n", "select a from t\n",
